@@ -24,6 +24,19 @@ if TYPE_CHECKING:
     from geff._typing import InMemoryGeff, PropDictNpArray, ZarrPropDict
 
 
+def _as_dtype(arr: NDArray, dtype: np.dtype | type) -> NDArray:
+    """`np.array(arr, dtype=dtype)` that also accepts variable length string arrays.
+
+    The specification stores string properties as variable length UTF8 strings (zarr v3
+    `string`, v2 vlen-utf8), which zarr-python 3 reads as numpy StringDType. numpy cannot
+    cast StringDType to a fixed width unicode dtype of unspecified width (`str`), so the
+    unicode array is built from the Python strings and numpy chooses the width.
+    """
+    if arr.dtype.kind == "T" and np.dtype(dtype).kind == "U":
+        return np.array(arr.tolist(), dtype=dtype).reshape(arr.shape)
+    return np.array(arr, dtype=dtype)
+
+
 class GeffReader:
     """File reader class that allows subset reading to an intermediate dict representation.
 
@@ -202,7 +215,7 @@ class GeffReader:
 
         dtype = np.dtype(prop_metadata.dtype)
         values_dtype = np.uint64 if prop_metadata.varlength else dtype
-        values = np.array(
+        values = _as_dtype(
             self._load_zarr_subset(zarr_prop[_path.VALUES], indices),
             dtype=values_dtype,
         )
